@@ -392,13 +392,15 @@ void SSL_CTX_free(SSL_CTX *ctx)
  *  O4 ownership: SSL_CTX_use_certificate/use_PrivateKey/X509_STORE_add_cert/add_crl take their own reference (the caller
  *     still frees his); SSL_CTX_add0_chain_cert takes over the caller's reference if and only if it returns 1
  * Everything else is nondeterministic: any parse may fail, any install may fail, the key check may fail. */
-struct { long x509_live, crl_live, pkey_live, bio_live; long bio_rem; unsigned long err_last; _Bool used_cert, used_key, key_checked; long tc_added, crl_added; } xv_OS;
+struct { long x509_live, crl_live, pkey_live, bio_live; long bio_rem; unsigned long err_last, err_first; _Bool pem_malformed; _Bool used_cert, used_key, key_checked; long tc_added, crl_added; } xv_OS;
 #define xv_x509_live xv_OS.x509_live
 #define xv_crl_live xv_OS.crl_live
 #define xv_pkey_live xv_OS.pkey_live
 #define xv_bio_live xv_OS.bio_live
 #define xv_bio_rem xv_OS.bio_rem          /* bytes not yet consumed of the (one) memory BIO being read */
-#define xv_err_last xv_OS.err_last        /* what ERR_peek_last_error() reports */
+#define xv_err_last xv_OS.err_last        /* what ERR_peek_last_error() reports: the NEWEST entry of the error queue */
+#define xv_err_first xv_OS.err_first      /* what ERR_peek_error() reports: the OLDEST entry of the error queue (0 = empty queue) */
+#define xv_pem_malformed xv_OS.pem_malformed /* ghost: some PEM_read_bio_* call met an object that is there but does not parse */
 #define xv_ssl_used_cert xv_OS.used_cert  /* SSL_CTX_use_certificate returned 1 for the context being built */
 #define xv_ssl_used_key xv_OS.used_key
 #define xv_ssl_key_checked xv_OS.key_checked
@@ -482,7 +484,23 @@ int BIO_free(BIO *a) { if (a == NULL) return 0; xv_bio_live--; free(a); return 1
 static void *xv_pem_read(BIO *bp, long *live)
 {
     __CPROVER_assert(__CPROVER_r_ok(bp, 1), "PEM_read_bio_*: live BIO");
-    if (xv_bio_rem <= 0 || nondet_bool()) { xv_err_last = nondet_ulong(); return NULL; }
+    if (xv_bio_rem <= 0 || nondet_bool()) {
+        /* ASSUMED (A7, what the error-queue tests of ctx_store.c rely on; checked natively by the seeder of C18-r3-m1 with a chain
+         * certificate whose DER body is cut): "no further PEM object" leaves PEM/NO_START_LINE as the newest entry; an object that is
+         * there but does not parse leaves a PEM-library entry with another reason as the NEWEST entry, after whatever the decoder
+         * queued before it (ASN.1 entries for a damaged DER body): the OLDEST entry is then arbitrary. */
+        if (xv_bio_rem > 0 && nondet_bool()) {
+            unsigned long r_ = nondet_ulong(), f_ = nondet_ulong();
+            __CPROVER_assume(r_ >= 1 && r_ <= 0xfff && r_ != PEM_R_NO_START_LINE && f_ != 0);
+            xv_pem_malformed = 1;
+            xv_err_last = ERR_PACK(ERR_LIB_PEM, 0, r_);
+            if (xv_err_first == 0) xv_err_first = f_;
+        } else {
+            xv_err_last = ERR_PACK(ERR_LIB_PEM, 0, PEM_R_NO_START_LINE);
+            if (xv_err_first == 0) xv_err_first = xv_err_last;
+        }
+        return NULL;
+    }
     long c = nondet_long();
     __CPROVER_assume(c >= 1 && c <= xv_bio_rem);
     xv_bio_rem -= c;
@@ -498,7 +516,8 @@ void X509_free(X509 *a) { if (a != NULL) xv_x509_live--; free(a); }
 void X509_CRL_free(X509_CRL *a) { if (a != NULL) xv_crl_live--; free(a); }
 void EVP_PKEY_free(EVP_PKEY *a) { if (a != NULL) xv_pkey_live--; free(a); }
 unsigned long ERR_peek_last_error(void) { return xv_err_last; }
-void ERR_clear_error(void) { xv_err_last = 0; }
+unsigned long ERR_peek_error(void) { return xv_err_first; }
+void ERR_clear_error(void) { xv_err_last = 0; xv_err_first = 0; }
 
 /* ---- ghost: arguments and moment of the load_ssl_ctx call (recorded by its contract where it is a cut point) */
 struct { long calls; const char *cert, *key, *tc, *crl; long at_md; } xv_LSC;
@@ -542,7 +561,7 @@ static inline void xv_lk_ghost_havoc(void)
     xv_ld_res[0] = xv_ld_res[1] = xv_ld_res[2] = xv_ld_res[3] = NULL; xv_ldb_res[0] = xv_ldb_res[1] = xv_ldb_res[2] = xv_ldb_res[3] = NULL;
     xv_lsc_calls = nondet_long(); xv_lsc_cert = xv_lsc_key = xv_lsc_tc = xv_lsc_crl = NULL; xv_lsc_at_md = nondet_long();
     xv_x509_live = nondet_long(); xv_crl_live = nondet_long(); xv_pkey_live = nondet_long(); xv_bio_live = nondet_long();
-    xv_bio_rem = nondet_long(); xv_err_last = nondet_ulong(); xv_ssl_used_cert = nondet_bool(); xv_ssl_used_key = nondet_bool(); xv_ssl_key_checked = nondet_bool();
+    xv_bio_rem = nondet_long(); xv_err_last = nondet_ulong(); xv_err_first = nondet_ulong(); xv_pem_malformed = nondet_bool(); xv_ssl_used_cert = nondet_bool(); xv_ssl_used_key = nondet_bool(); xv_ssl_key_checked = nondet_bool();
     xv_tc_added = nondet_long(); xv_crl_added = nondet_long();
     xv_snprintf_ret = nondet_int(); xv_snprintf_cap = nondet_size_t(); xv_snprintf_calls = nondet_int();
     xv_heap_live = nondet_long(); xv_ld_calls = nondet_long(); xv_stat_calls = nondet_size_t(); xv_lstat_calls = nondet_size_t();
